@@ -342,7 +342,7 @@ func Run(progs []Prog) {
 	flag.IntVar(&cf.H, "H", 24, "max consumer calls")
 	flag.IntVar(&cf.Cap, "cap", 20000, "per-program DFS node cap")
 	flag.BoolVar(&cf.Inject, "inject", true, "inject a panic at every event")
-	perProg := flag.Duration("timeout", 60*time.Second, "per-program watchdog")
+	perProg := flag.Duration("timeout", 120*time.Second, "per-program watchdog")
 	replayAns := flag.String("ans", "", "replay: comma separated answers (with -only)")
 	replayPanic := flag.Int("panicat", -1, "replay: event index to panic at")
 	mode := flag.String("mode", "explore", "explore | c14 | c14race | c17")
